@@ -1,4 +1,60 @@
-"""B-wcfi: written frame tables (DESIGN.md 6 C14).  (work-in-progress header, replaced at the end)
+"""B-wcfi: written frame tables (DESIGN.md 6 C14 "written frame tables read back with the same CIEs, FDEs and unwind rows").
+
+Source: write/cfi.rs (non-`convert` part).  Build = core.populate; wcore.populate; populate.  All functions owned by C14.
+Contracts are FIELD contracts over the write-side ghost log `w.wv()` (wcore): which `WOp`s a function hands to the Writer,
+in which order, with which values; `after(w, op)` (vx/specs/wcfi.rs) is "the view after one more field", so
+`final == after(after(old, a), b)` is "exactly the fields a, b were written".  The read-back half of C14 is the READ side's
+business (batches cfi_entries / cfi_unwind decode exactly these layouts); the two sides meet in the layout tables, which are
+cross-checked mechanically (see crosscheck_reader_table).
+
+FUNCTIONS UNDER CONTRACT (verified with their real bodies)
+  factored_code_delta, factored_data_offset   Ok(n) ==> n * factor == input (mathematical integers); input that is not
+      expressible with the factor (or decreases) ==> exactly Err(InvalidFrameCodeOffset/InvalidFrameDataOffset(input));
+      expressible with a non-zero factor ==> Ok.  The DIVISION obligations are owned by C14 and FAIL on the pinned tree (F-wcfi-1/2).
+  write_advance_loc     delta 0: nothing written; otherwise one advance instruction whose operand is the factored delta in a form
+      wide enough (advance-delta), the smallest one (advance-minimal: boundaries 0x40, 0x100, 0x1_0000); decreasing or
+      inexpressible offsets ==> Err(InvalidFrameCodeOffset(offset)).
+  write_nop             (requires len > 0 and an alignment of 1|2|4|8)  pads with DW_CFA_nop bytes to the next multiple, fewer than `align`.
+  CallFrameInstruction::write   per write-side variant and operand sign/size the DWARF instruction of table WCFI: opcode byte from
+      DWARF 5 table 7.29, operand kinds from 6.4.2 (table DW_CFA), factored operands = offset / data_alignment_factor (exact),
+      inexpressible offset ==> Err(InvalidFrameDataOffset(offset)); expression operands = ULEB128(size) then the expression's fields,
+      and exactly `size` bytes.  30 tagged clauses generated from the two Python tables.
+  CommonInformationEntry::{has_augmentation, write}   returned offset, version gate per section kind, address size validated (FAILS:
+      F-wcfi-3), v1 return-address register fits a byte, header layout (checkpoint clauses cie-header: length, CIE id per section kind
+      and format, version, augmentation string z L P R S, v4 address/segment size, factors, return register byte/ULEB, augmentation
+      data with its patched length), length word patched to the number of bytes after the initial length (cie-closed), size of the
+      length field + length is a multiple of the address size (cie-pad: FAILS for the 64-bit format, F-wcfi-4).
+  FrameDescriptionEntry::write   (requires: CIE written at cie_offset <= len, valid address size, LSDA present iff the CIE has an LSDA
+      encoding - the documented API requirement) header layout: relative 4-byte CIE pointer in .eh_frame / relocatable section offset
+      in .debug_frame, encoded or plain initial location + range, augmentation data (fde-header); fde-closed; fde-pad (FAILS: F-wcfi-4);
+      a range that does not fit the address size ==> Err.
+ASSUMED (TRUSTED, beyond wcore's)
+  write::Expression::{size, write} (R-EXTBODY: their bodies use iterator adapters / Option::as_deref_mut): `size(enc, None)` returns
+      `xsize(enc)`; `write(w, None, enc, None)` writes `xops(enc, pos)` and exactly `xsize(enc)` bytes.  Batch wop verifies them.
+  Operation, UnitOffsets, DebugInfoFixup: opaque stand-ins for types that occur only in those two signatures / the Expression field.
+  axiom_section_len (A-SECTION-LEN): a section never holds more than isize::MAX bytes (every shipped Writer is a Vec<u8>); used for
+      `word_size + w.len()` in the two write_nop calls only.
+NOT DECIDED
+  * FrameTable::{add_cie, add_fde, write_debug_frame, write_eh_frame, write}: CIE de-duplication and lazy emission go through
+    indexmap's IndexSet (outside Verus).  FrameTable::write is the caller that establishes FrameDescriptionEntry::write's requires
+    (cie_offset and the valid address size come from CommonInformationEntry::write's Ok clauses cie-offset / cie-address-size).
+  * that the fields written AFTER the header checkpoint (instructions, padding, length patch) leave the header fields in the log:
+    the ghost log is append-only by construction (every Writer primitive's contract is emitted/wunch), but carrying
+    `grew(header view, .)` through CommonInformationEntry::write exceeds the resource limit (9 conditionals in the header); the
+    FDE does carry it (fde-header is a postcondition).  The instruction STREAM of an entry (each instruction's fields in order,
+    advance_loc between FDE instructions) is covered per call by the callee contracts, not as one sequence-valued clause.
+  * Err cases of CommonInformationEntry::write say nothing about the section (partial entry; callers give up).
+  * a zero data alignment factor with offset 0 (every operand reads back as n * 0 == 0): fields left open, see WCFI comment.
+FINDINGS on the pinned tree (python3 vx/run.py wcfi exits 1 with exactly these; reproducers native/src/bin/f_wcfi_<n>.rs)
+  F-wcfi-1  factored_code_delta `delta / factor`, factored_data_offset `offset / factor`: a zero factor
+            (CommonInformationEntry::new(enc, 0, 0, ra) is public API) panics "attempt to divide by zero".   [DESIGN F8]
+  F-wcfi-2  factored_data_offset: i32::MIN / -1 panics "attempt to divide with overflow" (same failed obligation; the
+            `factored_offset * factor` overflow report is on the same, already panicked, path).               [DESIGN F8]
+  F-wcfi-3  CommonInformationEntry::write never validates encoding.address_size: write_nop's `align - 1` underflows for 0, its
+            debug_assert fails for 3 (nop-align, cie-address-size, the augmentation_length debug_assert, cie-pad).
+  F-wcfi-4  padding counts the offset size instead of the size of the initial length field: 64-bit format entries are 4 bytes
+            off a multiple of an 8-byte address size (cie-pad, fde-pad), contrary to DWARF 5 section 6.4.1.
+  Minimal fixes are in the reproducers' headers; with them applied (scratch tree) the batch exits 0.
 """
 import re
 from lib import *
@@ -7,8 +63,8 @@ from batches import core, wcore
 TRUSTED = list(wcore.TRUSTED) + ['Operation', 'UnitOffsets', 'DebugInfoFixup', 'size', 'write', 'axiom_section_len']
 OWN = ['C14']
 MULTIPLE_ERRORS = 6
-VERUS_ARGS = ['--rlimit', '40']
-RETRY_RLIMIT = 120
+VERUS_ARGS = ['--rlimit', '200']    # CommonInformationEntry::write (9 conditionals in the header) needs ~150
+RETRY_RLIMIT = 400
 
 W0 = 'old(w).wv()'
 W1 = 'final(w).wv()'
@@ -340,7 +396,7 @@ broadcast use crate::wspec::group_wrote;''')
         before=[('crate::verif_assert((align & (align - 1)) == (0));', NOP_BV)],
         after=[('w.write_u8(constants::DW_CFA_nop.0)?;', 'proof { assert(nops(it.index@ as nat).push(b1(0)) =~= nops((it.index@ + 1) as nat)); }')],
         loops={0: f'invariant wrote({W0}, w.wv(), nops(it.index@ as nat)), w.wv().len == {W0}.len + it.index@, 0 <= it.index@ <= tail_len, '
-                  f'tail_len < align, (len + tail_len) % (align as int) == 0'})
+                  f'tail_len < align, (len + tail_len) % (align as int) == 0 // [C14:nop-pad]'})
     sk.add('write::cfi', nop)
 
     ci = wc.item(r'^impl CallFrameInstruction \{', label='CallFrameInstruction')
@@ -366,7 +422,7 @@ broadcast use crate::wspec::group_wrote;''')
     ce.own(OWN)
     ce.splice('has_augmentation', ret='res', ensures=['res == self.has_aug()'])
     # checkpoint after the return address register (ghost only): the fixed header is complete
-    ce.insert_before('if augmentation {', 'let ghost v3 = w.wv();\nproof { reveal(CommonInformationEntry::after_fixed_header); assert(v3 == self.after_fixed_header(old(w).wv(), eh_frame)); assert(v3.len >= length_base); }\n', nth=1)
+    ce.insert_before('if augmentation {', 'let ghost v3 = w.wv();\nproof { reveal(CommonInformationEntry::after_fixed_header); checkpoint_cie_header(v3, self.after_fixed_header(old(w).wv(), eh_frame)); assert(v3.len >= length_base); }\n', nth=1)
     ce.splice('write', ret='res', ensures=[
         f'[C14:cie-offset] res matches Ok(off) ==> off as nat == {W0}.len',
         f'[C14:cie-version] res is Ok ==> cfi_version_ok(eh_frame, {ENC}.version)',
@@ -381,11 +437,11 @@ broadcast use crate::wspec::group_wrote;''')
         f'[C14:frame] res is Ok ==> {W1}.len >= {W0}.len && {W1}.be == {W0}.be'],
         # [C14:cie-header] is a CHECKPOINT assertion: when the instruction loop starts the section is exactly the old
         # section followed by the header fields (see NOT DECIDED in the header for the step to the function exit)
-        before=[('let augmentation = self.has_augmentation();', 'let ghost v1 = w.wv();\nproof { assert(v1 == after_cie_start(old(w).wv(), eh_frame, encoding)); assert(v1.len >= length_base); }'),
-                ('if encoding.version >= 4 {', 'let ghost v2 = w.wv();\nproof { reveal(CommonInformationEntry::after_aug_string); assert(v2 == self.after_aug_string(v1)); '
+        before=[('let augmentation = self.has_augmentation();', 'let ghost v1 = w.wv();\nproof { checkpoint_cie_header(v1, after_cie_start(old(w).wv(), eh_frame, encoding)); assert(v1.len >= length_base); }'),
+                ('if encoding.version >= 4 {', 'let ghost v2 = w.wv();\nproof { reveal(CommonInformationEntry::after_aug_string); checkpoint_cie_header(v2, self.after_aug_string(v1)); '
                  'self.lemma_aug_string_grew(v1); assert(v2.len >= length_base); }'),
                 ('for instruction in &self.instructions', 'let ghost hv = w.wv();\nproof { reveal(CommonInformationEntry::after_aug_data);\n'
-                 'assert(hv == self.after_header(old(w).wv(), eh_frame)); // [C14:cie-header]\n'
+                 'checkpoint_cie_header(hv, self.after_header(old(w).wv(), eh_frame));\n'
                  'self.lemma_aug_data_grew(v3); assert(hv.len >= length_base); }'),
                 ('write_nop(', 'proof { axiom_section_len::<W>(*w); }')],
         loops={0: 'invariant w.wv().len >= length_base, w.wv().be == old(w).wv().be'})
@@ -409,7 +465,7 @@ broadcast use crate::wspec::group_wrote;''')
         f'[C14:fde-pad] res is Ok ==> ({W1}.len - {W0}.len) % ({CENC}.address_size as int) == 0',
         f'[C14:fde-range-fits] cie.fde_address_encoding == constants::DW_EH_PE_absptr && !ufits(self.length as nat, {CENC}.address_size as nat) ==> res is Err',
         FRAME],
-        before=[('let mut prev_offset = 0;', 'let ghost hv = w.wv();\nproof { assert(hv == self.after_fde_header(old(w).wv(), eh_frame, cie_offset, cie)); }'),
+        before=[('let mut prev_offset = 0;', 'let ghost hv = w.wv();\nproof { checkpoint_fde_header(hv, self.after_fde_header(old(w).wv(), eh_frame, cie_offset, cie)); }'),
                 ('write_nop(', 'proof { axiom_section_len::<W>(*w); }')],
         loops={0: 'invariant grew(hv, w.wv())'})
     sk.add('write::cfi', fe)
